@@ -8,6 +8,7 @@ import (
 	"context"
 	"fmt"
 	"sync"
+	"sync/atomic"
 	"time"
 
 	"github.com/Comcast/sheens/core"
@@ -80,6 +81,10 @@ var polluters = []struct{ Name, Src string }{
 	{"undefined-shadow", `undefined = 1; return {};`},
 	{"throwing-after-pollution", `Object.prototype.polluted = 1; leak = 1; _.props.q = "overwritten"; if (_.props.nested) { _.props.nested.k = "polluted"; } throw new Error("after pollution");`},
 	{"mutate-everything-in-place", `function mut(x) { if (Array.isArray(x)) { for (var i = 0; i < x.length; i++) { if (x[i] !== null && typeof x[i] === 'object') { mut(x[i]); } else { x[i] = 'mutated'; } } x.reverse(); if (x.length > 0) { x.shift(); } x.push('pushed'); } else if (x !== null && typeof x === 'object') { for (var k in x) { if (x[k] !== null && typeof x[k] === 'object') { mut(x[k]); } else { x[k] = 'mutated'; } } x.added = 'mutated'; } } mut(_.bindings); mut(_.props); return {done: true};`},
+	// the members of the environment reached without spelling their names
+	{"env-enumerated-mutation", `for (var k in _) { var v = _[k]; try { if (v !== null && typeof v === 'object') { for (var j in v) { if (v[j] !== null && typeof v[j] === 'object') { for (var i in v[j]) { v[j][i] = 'polluted'; } } } v.added_by_enumeration = 1; } } catch (e) { } } return {};`},
+	{"env-computed-keys", `var p = _["pr" + "ops"]; p.q = "overwritten"; if (p.nested) { p.nested.k = "polluted"; p.nested.inner.deep = "polluted"; } var b = _["bind" + "ings"]; b.added = 1; if (b.deep) { b.deep.l1.arr.push(7); } return {};`},
+	{"env-escaped-identifier", `_.pr\u006fps.q = "overwritten"; if (_.pr\u006fps.list) { _.pr\u006fps.list[0] = "polluted"; } return {};`},
 	{"emit-then-mutate-emitted", `var m = {id: "e", inner: {v: 1}}; var r = _.out(m); m.inner.v = 2; return _.bindings;`},
 }
 
@@ -192,8 +197,8 @@ func (e *exec) run(rec *fw.Rec, name string, bs match.Bindings, props core.StepP
 }
 
 func Run(cfg fw.Config, rec *fw.Rec) {
-	rec.Rule = "17 polluting scripts (in-place mutation of _.bindings at depth 1-4, of _.props incl. nested maps and lists, globals with and without var, Object/Array prototype and JSON/Math/Object.keys patches, replaced environment members, pollution followed by a throw) run (on caller bindings of 7 shapes: nested objects, flat with arrays only, arrays of arrays / objects, Go-typed numbers, Go-typed containers such as []string and map[string]string) in sequences of length 1-5 before a probe script that reports everything observable (globals, prototypes, built-ins, environment keys, props, bindings); the probe's report must equal its report in a clean run; a self-probe pollutes and reports leftovers of its own earlier executions; the caller's bindings and props are deep-snapshotted around every execution (also through Spec.Step); 16-64 goroutines run one compiled source concurrently (race detector on); non-trivial = polluter sequence followed by a clean probe; distinct by sequence"
-	rec.Required = []string{"probe_after_polluters_clean", "self_probe_clean", "concurrent_rounds", "step_props_intact", "snapshots_intact"}
+	rec.Rule = "20 polluting scripts (in-place mutation of _.bindings at depth 1-4, of _.props incl. nested maps and lists, globals with and without var, Object/Array prototype and JSON/Math/Object.keys patches, replaced environment members, environment members reached by enumeration / computed keys / escaped identifiers, pollution followed by a throw) run (on caller bindings of 7 shapes: nested objects, flat with arrays only, arrays of arrays / objects, Go-typed numbers, Go-typed containers such as []string and map[string]string) in sequences of length 1-5 before a probe script that reports everything observable (globals, prototypes, built-ins, environment keys, props, bindings); the probe's report must equal its report in a clean run; a self-probe pollutes and reports leftovers of its own earlier executions; the caller's bindings and props are deep-snapshotted around every execution (also through Spec.Step); a tally script run with absent and with empty step properties must find _.props empty every time (sequentially, after every polluter, from 32 goroutines); 16-64 goroutines run one compiled source concurrently (race detector on); non-trivial = polluter sequence followed by a clean probe; distinct by sequence"
+	rec.Required = []string{"probe_after_polluters_clean", "self_probe_clean", "concurrent_rounds", "step_props_intact", "snapshots_intact", "absent_or_empty_props_private_per_execution"}
 	rec.Assume = []string{"the race detector reports only races that occur in the interleavings produced", "probe observability: what the probe script can enumerate (globals by name, prototypes, built-ins used by the DSL, environment keys, props, bindings)"}
 	e := newExec(rec)
 	clean, ok := e.run(rec, "probe", mkBindings(), mkProps(), "clean probe")
@@ -247,6 +252,68 @@ func Run(cfg fw.Config, rec *fw.Rec) {
 			return
 		}
 		rec.Bucket("self_probe_clean")
+	}
+
+	// absent and empty step properties: a script that writes into _.props must find it
+	// empty every time - sequentially and concurrently, alone and after the polluters
+	const propsTally = `var n = (_.props.tally || 0) + 1; _.props.tally = n; if (!_.props.box) { _.props.box = {n: 0}; } _.props.box.n++; return {tally: n, box: _.props.box.n};`
+	tallyProg, terr := e.interp.Compile(context.Background(), propsTally)
+	if terr != nil {
+		rec.Inconclusive("tally script: " + terr.Error())
+		return
+	}
+	for _, kind := range []string{"nil", "empty"} {
+		mk := func() core.StepProps {
+			if kind == "nil" {
+				return nil
+			}
+			return core.StepProps{}
+		}
+		bad := int32(0)
+		one := func(where string) {
+			pr := mk()
+			ctx, cancel := context.WithTimeout(context.Background(), 20*time.Second)
+			exe, err := e.interp.Exec(ctx, match.Bindings{}, pr, propsTally, tallyProg)
+			cancel()
+			rec.Eval(1)
+			if err != nil || exe == nil || fw.Canon(exe.Bs) != `{"box":1,"tally":1}` {
+				if atomic.AddInt32(&bad, 1) == 1 {
+					got := fmt.Sprint(err)
+					if exe != nil {
+						got = fw.Canon(exe.Bs)
+					}
+					rec.Violation("C10:props-leftovers:"+kind, fmt.Sprintf("a script run with %s step properties (%s) finds what an earlier or concurrent execution wrote into _.props: %s", kind, where, got), kind+" props, "+where)
+				}
+			}
+			if len(pr) != 0 {
+				if atomic.AddInt32(&bad, 1) == 1 {
+					rec.Violation("C10:caller-props-modified:"+kind, "the caller's empty step properties were written to", kind+" props")
+				}
+			}
+		}
+		for k := 0; k < 20; k++ {
+			one("sequential")
+		}
+		for _, pol := range polluters {
+			ctx, cancel := context.WithTimeout(context.Background(), 20*time.Second)
+			e.interp.Exec(ctx, mkBindings(), mk(), e.src(pol.Name), e.compiled[pol.Name])
+			cancel()
+			one("after " + pol.Name)
+		}
+		var wg sync.WaitGroup
+		for g := 0; g < 32; g++ {
+			wg.Add(1)
+			go func() {
+				defer wg.Done()
+				for k := 0; k < 5; k++ {
+					one("concurrent")
+				}
+			}()
+		}
+		wg.Wait()
+		if bad == 0 {
+			rec.Bucket("absent_or_empty_props_private_per_execution")
+		}
 	}
 
 	// (c) concurrency: one compiled source, private bindings per goroutine, shared props
